@@ -27,7 +27,7 @@ ASSUMPTIONS = [
     "are not input events",
     "networkx decides cycles / SCCs of the input graph",
 ]
-EXHAUSTIVE = ()
+EXHAUSTIVE = ()   # the loop-shape family is enumerated completely, see counters
 
 
 def is_dummy(t):
@@ -183,6 +183,15 @@ def run_shard(ctx):
             except Violation as v:
                 ctx.violation(case, str(v))
                 return
+    # exhaustive loop/break family (832 definitions, complete sets, k=2)
+    for tag, case in pvcase.loop_shape_cases(ctx.seed, ctx.shard,
+                                             ctx.nshards):
+        ctx.count("loop_shapes_enumerated")
+        try:
+            run_case(case, ctx)
+        except Violation as v:
+            ctx.violation(case, f"[loop shape {tag}] " + str(v))
+            return
     n = 150 if ctx.tier == "quick" else 4000
     from hypothesis import strategies as st
     ctx.run_given(st.one_of(
